@@ -524,7 +524,7 @@ class SNAXGEMMXAccelerator(
             ops.append(csr_op(addr_gemmx.result, launch_values["launch_gemmx"]))
 
             # await the accelerator only
-            ops.extend(self.lower_acc_await(self.generate_acc_op()))
+            ops.extend(self.lower_acc_await(acc_op))
 
         return ops
 
